@@ -5,8 +5,11 @@ import (
 	"os"
 	"os/exec"
 	"runtime"
+	"runtime/debug"
+	"strings"
 	"sync"
 	"sync/atomic"
+	"time"
 )
 
 // Main is the entry point of every per-property binary (cmd/cNN): parse the command line, run
@@ -14,6 +17,41 @@ import (
 func Main(id string, run func(*Ctx)) {
 	c := New(id)
 	c.ParseArgs(os.Args[1:])
+	for i, a := range c.Args {
+		if a == "--postmortem" {
+			st := "unknown status"
+			if i+1 < len(c.Args) {
+				st = c.Args[i+1]
+			}
+			c.Postmortem(st)
+			c.Finish()
+		}
+	}
+	// A generous wall-clock watchdog around the whole run. It decides nothing: when it fires, whatever was
+	// observed so far is reported (violations already recorded stay violations) and the truncation itself is
+	// an inconclusive outcome.
+	limit := 20 * time.Minute
+	if c.Thorough() {
+		limit = 4 * time.Hour
+	}
+	if s := os.Getenv("VERIF_MAX_WALL"); s != "" {
+		if d, err := time.ParseDuration(s); err == nil {
+			limit = d
+		}
+	}
+	go func() {
+		time.Sleep(limit)
+		c.Note("wall-clock watchdog fired after %v: reporting what was observed so far", limit)
+		c.Inconclusive("run-truncated-by-wall-clock-watchdog")
+		c.Finish()
+	}()
+	OnPanic = func(i int, val interface{}, stack []byte) {
+		st := string(stack)
+		if len(st) > 3000 {
+			st = st[:3000]
+		}
+		c.Violation(panicKey(val, stack), map[string]interface{}{"case_index": i, "panic": fmt.Sprint(val), "stack": st, "seed": c.Seed})
+	}
 	run(c)
 	c.Finish()
 }
@@ -76,11 +114,60 @@ func ParallelN(workers, n int, f func(i int)) {
 				if i >= n {
 					return
 				}
-				f(i)
+				guarded(i, f)
 			}
 		}()
 	}
 	wg.Wait()
+}
+
+// OnPanic, when set (mon.Main sets it), receives panics that escape a case run by Parallel: in an
+// in-process check a panic inside the library must become a reported violation, not a crash of the check.
+var OnPanic func(index int, val interface{}, stack []byte)
+
+func guarded(i int, f func(int)) {
+	if OnPanic == nil {
+		f(i)
+		return
+	}
+	defer func() {
+		if r := recover(); r != nil {
+			OnPanic(i, r, debug.Stack())
+		}
+	}()
+	f(i)
+}
+
+// panicKey builds "panic/<innermost function of the library under test>/<message class>".
+func panicKey(val interface{}, stack []byte) string {
+	fn := "unknown"
+	for _, line := range strings.Split(string(stack), "\n") {
+		if strings.Contains(line, "go-cassandra-native-protocol/") && strings.Contains(line, "(") && !strings.HasPrefix(line, "\t") {
+			fn = line[strings.LastIndex(line, "go-cassandra-native-protocol/")+len("go-cassandra-native-protocol/"):]
+			if j := strings.Index(fn, "("); j > 0 && !strings.HasPrefix(fn[j:], "(*") {
+				fn = fn[:j]
+			} else if j := strings.LastIndex(fn, "("); j > 0 {
+				fn = fn[:j]
+			}
+			break
+		}
+	}
+	msg := fmt.Sprint(val)
+	out := make([]byte, 0, 50)
+	for i := 0; i < len(msg) && len(out) < 50; i++ {
+		ch := msg[i]
+		switch {
+		case ch >= '0' && ch <= '9':
+			if len(out) == 0 || out[len(out)-1] != '#' {
+				out = append(out, '#')
+			}
+		case ch == ' ':
+			out = append(out, '_')
+		case ch > 0x20 && ch < 0x7f:
+			out = append(out, ch)
+		}
+	}
+	return "panic/" + fn + "/" + string(out)
 }
 
 // Self returns the path of the running binary (for spawning workers).
